@@ -172,6 +172,11 @@ class DefRuntime:
             for m in st["members"]:
                 if m["kind"] == "none":
                     continue              # an accessor the (re-declared) property does not have
+                if m["kind"] == "pset" and m.get("share"):
+                    # @Base.f.getter: the property keeps the setter object of the (first) base
+                    base_prop = inspect.getattr_static(self.classes[st["bases"][0]], m["name"][:-3], None)
+                    setters[m["name"][:-3]] = base_prop.fset if isinstance(base_prop, property) else None
+                    continue
                 if m["kind"] == "pset":
                     setters[m["name"][:-3]] = self.build_member(m)     # "fset" is the setter of property "f"
                     continue
